@@ -101,6 +101,9 @@ pub fn header_len(version: u32, flags: u32) -> usize {
             _ => 8,
         };
     }
+    if version >= 260 && flags & 0x800_0000 != 0 {
+        n += 8;
+    }
     if flags & 0x8 != 0 {
         n += 8;
     }
@@ -157,6 +160,11 @@ pub fn header_opts(b: &[u8], ignore_combos: bool) -> Result<Hdr, String> {
             }
             s => pairs.push(pair(&mut o, s)?),
         }
+    }
+    // optional trailing fields announced by flags: blend map overrides (header version >= 260,
+    // flag 0x8000000), then texture combiner combos (flag 0x8)
+    if version >= 260 && flags & 0x800_0000 != 0 && !ignore_combos {
+        pairs.push(pair(&mut o, "blend_map_overrides")?);
     }
     if flags & 0x8 != 0 && !ignore_combos {
         pairs.push(pair(&mut o, "texture_combiner_combos")?);
